@@ -16,7 +16,10 @@ FUNCTIONS['kripke'] = ['Kripke.__init__', 'Kripke.labels', 'Kripke.states', 'Kri
                        'Kripke.transitions', 'Kripke.clone', 'Kripke.get_substructure']
 FUNCTIONS['ctl'] = ['_checkAtomicProposition', '_checkNot', '_checkEX', '_checkOr', '_checkStateFormula']
 PROPERTY_FUNCTIONS = {
-    'C01': FUNCTIONS['ctl'] + FUNCTIONS['kripke'] + FUNCTIONS['graph'],
+    # own functions + the callee contracts the labelling relies on directly (their owners C13/C14 verify the rest)
+    'C01': FUNCTIONS['ctl'] + ['Kripke.labels', 'Kripke.states', 'Kripke.next', 'Kripke.transitions_iter',
+                               'DiGraph.get_subgraph', 'DiGraph.get_reversed_graph', 'DiGraph.add_edge', 'DiGraph.add_node',
+                               'DiGraph.nodes', 'DiGraph.next', 'DiGraph.get_reachable_set_from'],
     'C07': FUNCTIONS['ctl'] + ['Kripke.clone', 'Kripke.labels', 'Kripke.states', 'Kripke.next', 'Kripke.transitions_iter',
                                'DiGraph.get_subgraph', 'DiGraph.get_reversed_graph', 'DiGraph.get_reachable_set_from'],
     'C19': FUNCTIONS['ctl'] + ['Kripke.labels', 'Kripke.states', 'Kripke.next', 'Kripke.transitions_iter'],
@@ -59,7 +62,8 @@ def build_engine(repo=None, timeout_ms=20000, seed=0):
     return E
 
 
-SLICES = {'Kripke.__init__': 10, 'DiGraph.__init__': 3, 'Kripke.clone': 2, 'DiGraph.add_edge': 2}
+SLICES = {'Kripke.__init__': 10, 'DiGraph.__init__': 3, 'Kripke.clone': 2, 'DiGraph.add_edge': 2, '_checkOr': 3,
+          '_checkStateFormula': 3, '_checkEX': 2}
 
 
 def verify_function(arg):
@@ -87,9 +91,13 @@ def verify_function(arg):
         out.append({'name': o.name, 'status': o.status, 'backend': o.backend, 'seconds': o.seconds,
                     'tags': list(o.tags), 'detail': o.detail, 'line': o.line, 'index': i})
     probes = []
-    for j, (name, assumptions) in enumerate(info.pop('probes')):
+    allp = info.pop('probes')
+    # vacuity probes: entry, every loop body/exit, and at most three return paths
+    rets = [p for p in allp if p[0].startswith('return')]
+    keep = [p for p in allp if not p[0].startswith('return')] + rets[:3]
+    for j, (name, assumptions) in enumerate(keep):
         if j % ns == si:
-            probes.append({'name': '%s:probe:%s' % (q, name), 'result': E.probe(assumptions, 1500)})
+            probes.append({'name': '%s:probe:%s' % (q, name), 'result': E.probe(assumptions, 500)})
     info['probes'] = probes
     info['obligations'] = out
     info['n_generated'] = len(obls)
